@@ -1,7 +1,8 @@
 from vlib.runner import Ob
 from vlib.props._packet import packet_obs
+from vlib.props._c02fmt import fmt_obs
 
 
 def obligations(tier, seed):
     p = packet_obs()
-    return [p[k] for k in ("pagelink", "x27_links", "lop_parity", "lop_parity_x26", "header")]
+    return [p[k] for k in ("pagelink", "x27_links", "lop_parity", "lop_parity_x26", "header")] + list(fmt_obs().values())
